@@ -47,8 +47,6 @@ def main():
             rc0, o0 = sh('/venv/bin/python %s' % demo, cwd=copy, env=env, timeout=600)
             out['demo_without_patch_rc'] = rc0
         rc, o = sh('git apply --unsafe-paths --directory=%s %s' % (copy, patch), cwd='/')
-        if rc != 0:
-            rc, o = sh('patch -p1 < %s' % patch, cwd=copy)
         out['apply_rc'] = rc
         if rc != 0:
             print(o)
